@@ -6,7 +6,7 @@ for d in seeded/*/; do
   id=$(basename "$d"); [ -n "${1:-}" ] && [ "$1" != "$id" ] && continue
   prop=$(python3 -c "import json;print(json.load(open('$d/meta.json'))['property'])")
   git -C /repo apply "/verif/$d/patch.diff" || { echo "$id: patch does not apply"; continue; }
-  out=$(./check "$prop" 2>&1); rc=$?
+  out=$(./check "$prop" --noevidence 2>&1); rc=$?   # never overwrite evidence/ with a run on a changed tree
   git -C /repo checkout -- .
   first=$(echo "$out" | grep -m1 VIOLATION | sed 's/.*obligation=//' | cut -c1-150)
   n=$(echo "$out" | grep -c VIOLATION)
